@@ -181,6 +181,12 @@ class Tr:
             return "(" + op.join(parts) + ")"
         if isinstance(t, ast.UnaryOp) and isinstance(t.op, ast.Not):
             return f"(negb {self.boolexpr(t.operand)})"
+        if isinstance(t, ast.Compare) and len(t.ops) > 1:
+            # a chained comparison a < b <= c is (a < b) and (b <= c); the operands of this fragment are pure
+            operands = [t.left] + list(t.comparators)
+            parts = [self.boolexpr(ast.copy_location(ast.Compare(left=operands[i], ops=[t.ops[i]], comparators=[operands[i + 1]]), t))
+                     for i in range(len(t.ops))]
+            return "(" + " && ".join(parts) + ")"
         if isinstance(t, ast.Compare) and len(t.ops) == 1:
             op, l, r = t.ops[0], t.left, t.comparators[0]
             if isinstance(op, (ast.Is, ast.IsNot)) and isinstance(r, ast.Constant) and r.value is None:
